@@ -83,6 +83,10 @@ async fn run_command(
             Err(err) => return Ok(ToolOutput::failure(vec![err])),
         }
     }
+    // provider credentials stay with the authority; an explicit `env` of the call still applies
+    for name in crate::secret_env_names() {
+        cmd.env_remove(name);
+    }
     if let Some(envs) = &args.env {
         cmd.envs(envs);
     }
